@@ -16,7 +16,7 @@ CFG = {
  'runs': [{'tags': 'verif'}, {'tags': 'verif debug'}],
  'rule': 'EXTRA check (not in properties.jsonl). cases = (1) a fixed family of 30 versions exercising every decision of the precedence order, '
          'pairwise under all 6 operators through the parser-independent /ast operation, and along a diagonal through every operator spelling as strings; '
-         '(2) structured random strings: a version near a base version (valid 6 in 7, else one of 16 kinds of damage) against 0..4 spec elements of 1..3 '
+         '(2) structured random strings: a version near a base version (half of the cases are clean: valid version, well-formed comparators and wildcards only; in the other half the version is damaged 1 time in 4 in one of 16 ways and the elements mix everything) against 0..4 spec elements of 1..3 '
          'comparators built around the base (operators in all spellings, a space after the operator, bad operators, wildcards 1.x / 1.2.x / 1.x.x and odd ones, '
          'damaged versions, inner "||", empty and odd elements, doubled / leading / trailing spaces); (3) structured random versions and ranges (1..3 groups of 1..3 comparators, '
          'versions differing from the base in one place) through the /ast operations. The release build runs IsCompatible, Check and the /ast operations, the -tags debug build runs Check/debug '
